@@ -94,15 +94,17 @@ def _make_layer(tfl, c, units, **extra):
   return layer
 
 
+# The kernel is assigned right after construction, so these layers are built with a plain Keras initializer: the
+# default lattice initializers reject a one-sided output_max <= 0 (their default range would be empty).
 def run_layer_finalize(tf, tfl, c, K):
-  layer = make_layer(tfl, c, K.shape[1])
+  layer = make_layer(tfl, c, K.shape[1], kernel_initializer="zeros")
   layer.kernel.assign(K.astype(np.float32))
   layer.finalize_constraints()
   return layer.kernel.numpy()
 
 
 def run_layer_constraint(tf, tfl, c, K):
-  layer = make_layer(tfl, c, K.shape[1])
+  layer = make_layer(tfl, c, K.shape[1], kernel_initializer="zeros")
   layer.kernel.assign(K.astype(np.float32))
   layer.kernel.assign(layer.kernel.constraint(layer.kernel))
   return layer.kernel.numpy()
@@ -195,8 +197,12 @@ def random_cfg(rng, max_rank=4, max_size=4, max_vertices=81, families=True):
     c["hasMin"], c["hasMax"] = True, True
   elif b < 0.5:
     c["hasMin"] = True
+    if b < 0.43:        # a one-sided bound of exactly zero (a falsy number) half of the time
+      lo = Fraction(0)
   elif b < 0.65:
     c["hasMax"] = True
+    if b < 0.58:
+      hi = Fraction(0)
   c["omin"], c["omax"] = rat(lo), rat(hi)
   c["iters"] = int(rng.choice([0, 1, 1, 2, 3, 10, 10]))
   c["strict"] = bool(rng.random() < 0.8)
